@@ -173,7 +173,7 @@ def write_replay(prop, tier, seed, index, excl, values, outcome, extra=None, dir
         doc.update(extra)
     d = directory or os.path.join(OUT, "replays")
     os.makedirs(d, exist_ok=True)
-    name = f"{prop}-{core.digest([prop, v.oracle, v.kind, list(values)])}.json"
+    name = f"{prop}-{core.digest([prop, v.oracle, v.kind, list(values), excl, os.environ.get('PYTHONHASHSEED', '')])}.json"
     path = os.path.join(d, name)
     with open(path, "w") as f:
         json.dump(doc, f, indent=1, default=repr)
@@ -309,7 +309,10 @@ def fresh_replay(path, hashseed=None):
     if hashseed is not None:
         env["PYTHONHASHSEED"] = str(hashseed)
     p = subprocess.run([PY, os.path.abspath(__file__), "replay", path], capture_output=True, text=True, env=env, timeout=900)
-    return p.returncode, p.stdout + p.stderr
+    rc = p.returncode
+    if rc == 1 and "VIOLATION property=" not in p.stdout:
+        rc = 2   # exit status 1 without a VIOLATION line is a crash, not a reproduced violation
+    return rc, p.stdout + p.stderr
 
 
 def cmd_check(prop, tier):
@@ -495,4 +498,12 @@ def main(argv):
 
 
 if __name__ == "__main__":
-    sys.exit(main(sys.argv))
+    try:
+        rc = main(sys.argv)
+    except SystemExit:
+        raise
+    except BaseException:  # a crash of the harness is an ERROR (2), never a VIOLATION (1) and never a pass (0)
+        traceback.print_exc()
+        print("ERROR harness crashed")
+        rc = 2
+    sys.exit(rc)
